@@ -85,15 +85,19 @@ theorem makeRegion_ok {fn : FName} {sh : DShape} {ps : List ℚ} {raw : Dict} {r
       · simp only [if_pos ht] at h
         split at h
         · simp at h
-        · simp only [Except.ok.injEq] at h
-          subst h
-          exact ⟨rs, cls, coords, nums, vis, hg, hv, rfl, rfl, rfl, rfl, by simp [ht], by simp [ht], rfl⟩
+        · split at h
+          · simp at h
+          · simp only [Except.ok.injEq] at h
+            subst h
+            exact ⟨rs, cls, coords, nums, vis, hg, hv, rfl, rfl, rfl, rfl, by simp [ht], by simp [ht], rfl⟩
       · simp only [if_neg ht] at h
         split at h
         · simp at h
-        · simp only [Except.ok.injEq] at h
-          subst h
-          exact ⟨rs, cls, coords, nums, vis, hg, hv, rfl, rfl, rfl, rfl, by simp [ht], by simp [ht], rfl⟩
+        · split at h
+          · simp at h
+          · simp only [Except.ok.injEq] at h
+            subst h
+            exact ⟨rs, cls, coords, nums, vis, hg, hv, rfl, rfl, rfl, rfl, by simp [ht], by simp [ht], rfl⟩
 
 /-- the meta part of `_split_raw_metadata` keeps every key that is neither visual nor unsupported. -/
 theorem get_splitRaw_meta (raw : Dict) (k : Key) (h1 : k ∉ unsupportedMeta) (h2 : k ∉ readerVisualKeys) :
